@@ -75,11 +75,10 @@ class AwareDT(datetime.datetime):
 NAME_POOL = {}
 
 
-def _remember_name(q):
-    if isinstance(q, QualifiedName):
-        if len(NAME_POOL) > 3000:
-            NAME_POOL.clear()
-        NAME_POOL[q.uri] = q
+def _remember_name(q, prog):
+    # remembered with the program it came from: a program never sees its own names (two runs of one program make the same choices)
+    if isinstance(q, QualifiedName) and q.uri not in NAME_POOL:
+        NAME_POOL[q.uri] = (q, prog)
 
 
 def _pick(text, modulo):
@@ -124,8 +123,8 @@ class State:
                 return QualifiedName(ns, local)        # minted directly: another object than ns[local] hands out
             if 12 <= how <= 17:
                 old = NAME_POOL.get(spec["ns"] + local)
-                if old is not None:
-                    return old                              # the same name as an earlier (possibly dead) document resolved it
+                if old is not None and old[1] != getattr(self, "prog", None) and getattr(self, "use_pool", True):
+                    return old[0]                           # the same name as an earlier (possibly dead) document resolved it
             if how == 10:
                 return SubQN(ns, local)
             if how == 11 and spec.get("odd"):
@@ -160,6 +159,9 @@ class State:
         if k == "qn":
             return self.mk_name(spec["name"])
         if k == "lang":
+            if self.nvalues % 4 == 0:
+                # the datatype given explicitly next to the tag (the constructor settles on prov:InternationalizedString either way)
+                return pm.Literal(spec["v"], XSD["string"] if self.nvalues % 8 == 0 else PROV["InternationalizedString"], spec["lang"])
             return pm.Literal(spec["v"], langtag=spec["lang"])
         if k == "lit":
             # programs reuse their Literal objects (a constant such as Literal("12.5", UNITS["cm"]) used on many records, in several
@@ -322,7 +324,7 @@ def exec_op(st, op):
             rec = b.new_record(REC_TYPES[kind], ident, [(PROV[f], v) for f, v in fargs.items()], ex)
         if rec is not None:
             st.recs[label] = rec
-            _remember_name(getattr(rec, "identifier", None))
+            _remember_name(getattr(rec, "identifier", None), getattr(st, "prog", None))
         return rec
     if k == "attrs":
         rec = st.recs.get(op[1])
@@ -374,10 +376,15 @@ def exec_op(st, op):
     raise AssertionError("unknown op %r" % (op,))
 
 
-def run(ops, on_step=None, stop_on_error=False, style_xor=0):
+def run(ops, on_step=None, stop_on_error=False, style_xor=0, use_pool=True, prog=None):
     """Run a program. Outcomes: 'ok', 'skip:<why>', 'refused:<ProvException subclass>', 'error:<Type>: msg'."""
     st = State()
     st.style_xor = style_xor
+    st.use_pool = use_pool       # False: no name objects of earlier documents (what a fresh process would do)
+    import zlib
+    st.prog = prog if prog is not None else zlib.crc32(repr(ops).encode("utf-8"))     # a variant of a program passes its origin's
+    if len(NAME_POOL) > 3000:
+        NAME_POOL.clear()
     for i, op in enumerate(ops):
         res = None
         try:
